@@ -48,5 +48,6 @@ theorem getAccessCall : Facts.getAccessCall = Spec.getAccessCall := by rfl
 theorem getStorageMetadataShape : Facts.getStorageMetadataShape = Spec.getStorageMetadataShape := by rfl
 theorem sendBodySites : Facts.sendBodySites = Spec.sendBodySites := by rfl
 theorem runSizeLimiterShape : Facts.runSizeLimiterShape = Spec.runSizeLimiterShape := by rfl
+theorem cachingFuncCalls : Facts.cachingFuncCalls = Spec.cachingFuncCalls := by rfl
 
 end Pins
